@@ -223,6 +223,12 @@ func (p *Pkg) buildSetModel() *SetModel {
 				Detail: "parameter " + prm.Name() + " is never reassigned; switch tag / validate argument is the raw parameter"})
 		}
 	}
+	for _, o := range sm.Obls {
+		if o.Rule == "R01.case" {
+			o.Rule = "R09.case"
+			sm.Obls = append(sm.Obls, o)
+		}
+	}
 	// statements outside the switch: only "return nil"
 	for _, s := range fd.Body.List {
 		if s == ast.Stmt(sw) {
@@ -273,17 +279,24 @@ func (p *Pkg) buildSetModel() *SetModel {
 		} else {
 			add(true, "R07.guard", "default", sm.Default, "default arm contains no store")
 		}
-		ok, why := p.isErrInvalidMetricReturn(sm.Default.Body, abv, nil)
-		add(ok, "R09.default", "default", sm.Default, why)
+		refuses, typed, why := p.defaultArmError(sm.Default.Body, abv, nil)
+		add(refuses, "R09.default", "default", sm.Default, map[bool]string{true: "an unknown abbreviation is refused with a non-nil error", false: "an unknown abbreviation is not refused with a provably non-nil error: " + why}[refuses])
+		add(typed, "R18.default", "default", sm.Default, why)
 	}
 	// cross-arm: data bits of M are not in W of any other arm
+	overlap := false
 	for _, m := range sm.Metrics {
 		for pos := range m.dataBits() {
 			if o := sm.Owner[pos]; o != nil && o != m {
-				add(false, "R07.preserve", m.Label, m.Arm, fmt.Sprintf("data bit %s is also a data bit of %s", pos, o.Label))
+				add(false, "R07.overlap", m.Label, m.Arm, fmt.Sprintf("code bits of %s and %s are stored in the same bit %s: setting one produces an arbitrary (possibly illegal) code of the other", m.Label, o.Label, pos))
+				overlap = true
 			}
 			sm.Owner[pos] = m
 		}
+	}
+	if !overlap {
+		sm.Obls = append(sm.Obls, Obligation{Rule: "R07.overlap", Instance: p.Key + ".Set.fields", Pos: p.pos(fd), OK: true, NonTrivial: true,
+			Detail: fmt.Sprintf("the code bits of the %d metrics occupy pairwise distinct bits", len(sm.Metrics))})
 	}
 	for _, m := range sm.Metrics {
 		if !m.encOK {
@@ -375,6 +388,98 @@ func (p *Pkg) fieldStores(n ast.Node) []ast.Node {
 // as the error result and nothing else. errResult is the named error result
 // (Get of v4 assigns it instead of returning).
 func (p *Pkg) isErrInvalidMetricReturn(stmts []ast.Stmt, abv types.Object, errResult types.Object) (bool, string) {
+	_, ok, why := p.defaultArmError(stmts, abv, errResult)
+	return ok, why
+}
+
+// defaultArmError returns (refuses, typedOK, why): refuses = the arm yields a
+// provably non-nil error and nothing else; typedOK = that error is exactly
+// &ErrInvalidMetric{Abv: abv}.
+func (p *Pkg) defaultArmError(stmts []ast.Stmt, abv types.Object, errResult types.Object) (bool, bool, string) {
+	e, why := p.defaultArmExpr(stmts, errResult)
+	if e == nil {
+		return false, false, why
+	}
+	typed, twhy := p.isTypedErrPtr(e, "ErrInvalidMetric", abv)
+	if typed {
+		return true, true, twhy
+	}
+	return p.provablyNonNilErr(e, 0), false, twhy
+}
+
+// provablyNonNilErr: &literal, a package-level sentinel, the address of a
+// package-level variable, or a call to a package function all of whose returns are such.
+func (p *Pkg) provablyNonNilErr(e ast.Expr, depth int) bool {
+	switch x := e.(type) {
+	case *ast.ParenExpr:
+		return p.provablyNonNilErr(x.X, depth)
+	case *ast.UnaryExpr:
+		return x.Op == token.AND
+	case *ast.CompositeLit:
+		return true
+	case *ast.Ident:
+		return p.sentinel(x) != nil
+	case *ast.CallExpr:
+		if depth > 3 {
+			return false
+		}
+		fn := calleeOf(p.Info, x)
+		if fn == nil || fn.Pkg() != p.P.Types {
+			return false
+		}
+		fd := p.FuncObj[fn]
+		if fd == nil || fd.Body == nil {
+			return false
+		}
+		all, n := true, 0
+		ast.Inspect(fd.Body, func(nd ast.Node) bool {
+			if rs, ok := nd.(*ast.ReturnStmt); ok && len(rs.Results) == 1 {
+				n++
+				r := rs.Results[0]
+				if id, ok := r.(*ast.Ident); ok {
+					// a local/package pointer variable: accept package-level pointer vars
+					if v, ok := p.Info.Uses[id].(*types.Var); ok && v.Parent() == p.P.Types.Scope() {
+						if _, isPtr := v.Type().(*types.Pointer); isPtr {
+							return true
+						}
+					}
+				}
+				if !p.provablyNonNilErr(r, depth+1) {
+					all = false
+				}
+			}
+			return true
+		})
+		return all && n > 0
+	}
+	return false
+}
+
+func (p *Pkg) defaultArmExpr(stmts []ast.Stmt, errResult types.Object) (ast.Expr, string) {
+	if len(stmts) != 1 {
+		return nil, fmt.Sprintf("default arm has %d statements, expected exactly one producing the error", len(stmts))
+	}
+	switch s := stmts[0].(type) {
+	case *ast.ReturnStmt:
+		if len(s.Results) == 0 {
+			return nil, "default arm returns without an error"
+		}
+		if len(s.Results) == 2 {
+			if str, ok := constString(p.Info, s.Results[0]); !ok || str != "" {
+				return nil, "default arm returns a non-empty value next to the error"
+			}
+		}
+		return s.Results[len(s.Results)-1], ""
+	case *ast.AssignStmt:
+		if len(s.Lhs) != 1 || len(s.Rhs) != 1 || s.Tok != token.ASSIGN || errResult == nil || identObj(p.Info, s.Lhs[0]) != errResult {
+			return nil, "default arm assigns something other than the error result"
+		}
+		return s.Rhs[0], ""
+	}
+	return nil, "default arm is neither a return nor an assignment of the error result"
+}
+
+func (p *Pkg) isErrInvalidMetricReturnOld(stmts []ast.Stmt, abv types.Object, errResult types.Object) (bool, string) {
 	if len(stmts) != 1 {
 		return false, fmt.Sprintf("default arm has %d statements, expected exactly one producing &ErrInvalidMetric{Abv: abv}", len(stmts))
 	}
@@ -737,6 +842,12 @@ func (p *Pkg) buildGetModel() *GetModel {
 	} else {
 		gm.Obls = append(gm.Obls, Obligation{Rule: "R01.case", Instance: p.Key + ".Get.param0", Pos: p.pos(fd), OK: true, NonTrivial: true, Detail: "switch tag is the raw parameter"})
 	}
+	for _, o := range gm.Obls {
+		if o.Rule == "R01.case" {
+			o.Rule = "R09.case"
+			gm.Obls = append(gm.Obls, o)
+		}
+	}
 	var rObj, errObj types.Object
 	if len(results) == 2 {
 		rObj, errObj = results[0], results[1]
@@ -857,8 +968,9 @@ func (p *Pkg) buildGetModel() *GetModel {
 	if gm.Default == nil {
 		add(false, "R09.default", "default", sw, "Get has no default arm: an unknown abbreviation yields (\"\", nil)")
 	} else {
-		ok, why := p.isErrInvalidMetricReturn(gm.Default.Body, abv, errObj)
-		add(ok, "R09.default", "default", gm.Default, why)
+		refuses, typed, why := p.defaultArmError(gm.Default.Body, abv, errObj)
+		add(refuses, "R09.default", "default", gm.Default, map[bool]string{true: "an unknown abbreviation is refused with a non-nil error", false: "an unknown abbreviation is not refused with a provably non-nil error: " + why}[refuses])
+		add(typed, "R18.default", "default", gm.Default, why)
 	}
 	return gm
 }
